@@ -32,7 +32,8 @@ ASSUMPTIONS = ["classification of the few known names in the generator's pool fo
 
 KNOWN = {"temp": "temp", "density": "density", "x_velocity": "velocity", "y_velocity": "velocity",
          "z_velocity": "velocity", "mag_vort": "mag_vort", "rhoh": "rhoh", "HeatRelease": "HeatRelease",
-         "volFrac": "volFrac", "Y(H2)": "Y", "Y(O2)": "Y", "Y(N2)": "Y", "Y(CH2(S))": "Y", "divu": "divu",
+         "volFrac": "volFrac", "Y(H2)": "Y", "Y(O2)": "Y", "Y(N2)": "Y", "Y(CH2(S))": "Y", "Y(YC7H15)": "Y", "Y(C7H15)": "Y",
+         "Y((CH3)2O)": "Y", "divu": "divu",
          "I_R(H2)": "I_R", "gradpx": "gradp"}
 UNKNOWN = ["phi", "phi2", "a", "banana", "foo_bar", "pressure", "avg.p", "we(ird", "x+y", "T[0]", "Temp", "densit"]
 POOL = list(KNOWN) + UNKNOWN
